@@ -299,6 +299,15 @@ def r5_join(ctx, prog):
                         lam_pushes += [st for st in l.stmts if st and q.is_call(st, fn='push_back') and l.path(st['obj']) == rng]
                     ctx.ob('C05.R5', '%s|same-collection' % cl.name, bool(lam_pushes),
                            'the joined collection is the one filled by the foreach callback', where=cl.loc(loops[0]['i']))
+        # a pool that raised its stop flag is left "not ready": execute() must refuse until initialize() lowered the flag again
+        gate_users = [g for g in prog.methods_of(cls) if g.short in ('execute', 'initialize') and q.field_refs(g, 'Data::is_ready')]
+        if gate_users:
+            rdy = [a for a, rhs in q.assigns(cl, 'Data::is_ready') if (cl.s(rhs) or {}).get('cv') == 0 or (cl.s(cl.strip_casts(rhs)) or {}).get('v') in (False, 0)]
+            for w_ in flag_w:
+                ok = bool(rdy) and q.must_follow(cl, q.pt(cl, w_), q.pts(cl, rdy))
+                ctx.ob('C05.R5', '%s|not-ready-after-stop' % cl.name, ok, 'every path after the stop flag was raised clears is_ready' if ok else
+                       'a path leaves cleanup() with the stop flag raised and is_ready still true: execute() keeps accepting tasks, every worker it spawns exits at once '
+                       'on the stale flag, the tasks stay waiting for ever and initialize() is refused', where=cl.loc(w_['i']))
         # self retiring worker (pool only)
         if not info['thread_field']:
             w = prog.fn1(cls + '::threadProc')
